@@ -3,6 +3,11 @@
 import json, subprocess
 ALL=[f"C{i:02d}" for i in range(1,20)]
 CLAIMED={
+ "C02": dict(
+   text="Explicit-state breadth-first search over operation sequences on the real server against a reference file system: namespace/data alphabet (29 symbols, both with and without the unstable option), name lengths 0..256, and offsets/sizes at every block and indirection boundary up to the announced maximum; after every transition the reply, an observation sweep with every read-only procedure, and a full-tree dump incl. handles are compared.",
+   note="Trusted: the reference model (reffs) and its stated tolerance points (DESIGN.md Appendix A); state key = model + installed disk + allocator cursors + inode cache (log position is abstracted away). Bounds: depth, alphabets, two directories and a handful of names. XDR/RPC transport replay is not part of this check yet (see C16 for the codec).",
+   technique="explicit-state search over operation sequences of the implementation with a reference-model oracle",
+   ref="DESIGN.md 4 (C02)"),
  "C18": dict(
    text="Bounded-exhaustive model checking of the real kvs package: every operation sequence to the tier's depth against a map, every crash image (all cuts x all losses of un-barriered writes, nested crash in recovery) of every put history recovered by the real MkKVS, and every schedule within the deviation bound of 3-client harnesses checked for linearizability.",
    note="Trusted: the cooperative scheduler shim (vsync) models sync.Mutex/Cond faithfully; Disk contract (atomic block writes, Barrier persists everything); lockmap.NSHARD scaled to 13. Bounds: depth, alphabet, deviation bound, capped loss enumeration for epochs with hundreds of pending blocks (reported exhaustive:false).",
